@@ -166,7 +166,26 @@ func termsOf(vs []Val) []Term {
 	return out
 }
 
-func (u *Unit) execCallVals(st *State, fr *Frame, site ssa.Instruction, c *ssa.CallCommon, fn Val, args []Val, k CallK) {
+func (u *Unit) execCallVals(st *State, fr *Frame, site ssa.Instruction, c *ssa.CallCommon, fn Val, args []Val, k0 CallK) {
+	// remember argument types of the call event (for lastarg)
+	n0 := len(st.Calls)
+	k := func(st *State, fr *Frame, res Val) {
+		if len(st.Calls) > n0 {
+			var tys []types.Type
+			if c.IsInvoke() {
+				tys = append(tys, c.Value.Type())
+			}
+			for _, a := range c.Args {
+				tys = append(tys, a.Type())
+			}
+			for i := n0; i < len(st.Calls); i++ {
+				if st.Calls[i].ArgTys == nil && len(st.Calls[i].Args) == len(tys) {
+					st.Calls[i].ArgTys = tys
+				}
+			}
+		}
+		k0(st, fr, res)
+	}
 	if b, ok := c.Value.(*ssa.Builtin); ok && !c.IsInvoke() {
 		u.builtin(st, fr, site, c, b, args, k)
 		return
@@ -472,12 +491,15 @@ func (p *Prog) addrLeaks(v ssa.Value, depth int) bool {
 			}
 		case *ssa.MakeClosure:
 			fn := r.Fn.(*ssa.Function)
-			if !p.closureIsLocal(r, depth+1) {
-				return true
-			}
+			local := p.closureIsLocal(r, depth+1)
 			for i, b := range r.Bindings {
 				if b == v {
 					if p.addrLeaks(fn.FreeVars[i], depth+1) {
+						return true
+					}
+					// a closure that escapes may run at any time: the variable is only safe
+					// from outside modification if the closure never writes it
+					if !local && freeVarWritten(fn, fn.FreeVars[i]) {
 						return true
 					}
 				}
@@ -777,6 +799,10 @@ func (u *Unit) applyContract(st *State, fr *Frame, site ssa.Instruction, callee 
 	u.bindResults(post, u.resultNames(callee, ct, sig), rts, res)
 	for i, cl := range ct.Clauses {
 		if cl.Kind != "ensures" {
+			continue
+		}
+		if mentionsCallLog(cl.Expr) {
+			// a clause about the callee's own calls says nothing in the caller's call log
 			continue
 		}
 		post.key = fmt.Sprintf("%s.ens%d", name, i)
@@ -1592,4 +1618,36 @@ func onlyLoadedForReturn(a *ssa.Alloc) bool {
 		}
 	}
 	return true
+}
+
+// mentionsCallLog: the expression refers to the ghost call log (calls, called,
+// lastresult, lastarg), which is per function activation.
+func mentionsCallLog(x Expr) bool {
+	switch x := x.(type) {
+	case ECall:
+		switch x.Fn {
+		case "calls", "called", "lastresult", "lastarg", "iter_count", "iter_key", "iter_visited":
+			return true
+		}
+		for _, a := range x.Args {
+			if mentionsCallLog(a) {
+				return true
+			}
+		}
+	case EBinary:
+		return mentionsCallLog(x.X) || mentionsCallLog(x.Y)
+	case EUnary:
+		return mentionsCallLog(x.X)
+	case ESel:
+		return mentionsCallLog(x.X)
+	case EIndex:
+		return mentionsCallLog(x.X) || mentionsCallLog(x.I)
+	case EForall:
+		return mentionsCallLog(x.Body)
+	case ESlice:
+		return mentionsCallLog(x.X)
+	case EIdent:
+		return false
+	}
+	return false
 }
